@@ -63,6 +63,59 @@ def transformed(ctx):
         ctx.oblige("C03/AbstractDistribution._sample_and_log_prob/post/contract_D", z3.And(smp.e == S(d, k, c), lift(lpv) == LP(d, S(d, k, c), c)), p.cond, props, fn=f"{MOD}.AbstractDistribution._sample_and_log_prob")
 
 
+@family("distributions/AbstractTransformed.shapes", ["C03", "C06", "C13"])
+def transformed_shapes(ctx):
+    """declared shape / cond_shape of a transformed distribution, every rank INCLUDING rank-0 (scalar) conditions:
+    cond_shape is None iff both children are unconditional, else the (common) condition shape of the conditional children;
+    real `cond_shape` / `shape` properties and the real utils.merge_cond_shapes executed on integer sequences"""
+    from fjvc.values import SymTuple, IntSeq
+    props = ["C03", "C06", "C13"]
+    q = f"{MOD}.AbstractTransformed"
+    sb, sd, sh = z3.Const("bij_cond_shape", IntSeq), z3.Const("base_cond_shape", IntSeq), z3.Const("event_shape", IntSeq)
+    b, d = z3.Const("b", BIJ), z3.Const("d", DIST)
+    rp = dict(kind="transformed", what="cond_shape", vars={})
+    for bname, bc in (("bij_uncond", None), ("bij_cond", SymTuple(sb))):
+        for dname, dc in (("base_uncond", None), ("base_cond", SymTuple(sd))):
+            it = ctx.new_interp()
+            cls = it.repo_class(q)
+            self = Obj(cls, base_dist=AbsDist(d, shape=SymTuple(sh), cond_shape=dc), bijection=AbsBij(b, shape=SymTuple(sh), cond_shape=bc))
+            tag = f"{bname},{dname}"
+            # the constructor's __check_init__ carries the compatibility check; cond_shape is specified for accepted objects
+            pc = it.explore(lambda self=self: method(cls, "__check_init__")(self))
+            both = bc is not None and dc is not None
+            acc = [p for p in pc if p.outcome == "return"]
+            ctx.oblige(f"C03/AbstractTransformed.__check_init__[{tag}]/struct/has_success_path", len(acc) >= 1, [], props, kind="struct", fn=q + ".__check_init__")
+            for i, p in enumerate(pc):
+                if p.outcome == "raise":
+                    ctx.oblige(f"C13/AbstractTransformed.__check_init__[{tag}]/post/raises_only_on_mismatch#{i}", (sb != sd) if both else z3.BoolVal(False), p.cond, props, fn=q + ".__check_init__", replay=rp)
+                elif both:
+                    ctx.oblige(f"C13/AbstractTransformed.__check_init__[{tag}]/post/accepted_only_if_equal#{i}", sb == sd, p.cond, props, fn=q + ".__check_init__", replay=rp)
+            accepted = z3.Or(*[z3.And(*p.cond) if p.cond else z3.BoolVal(True) for p in acc]) if acc else z3.BoolVal(False)
+            paths = it.explore(lambda self=self: self.cond_shape)
+            ok = [p for p in paths if p.outcome == "return"]
+            ctx.oblige(f"C03/AbstractTransformed.cond_shape[{tag}]/struct/returns", len(ok) >= 1, [], props, kind="struct", fn=q + ".cond_shape")
+            for i, p in enumerate(paths):
+                H = [accepted] + p.cond
+                if p.outcome == "raise":
+                    ctx.oblige(f"C03/AbstractTransformed.cond_shape[{tag}]/post/never_raises_on_accepted_object#{i}", z3.BoolVal(False), H, props, fn=q + ".cond_shape", replay=rp)
+                    continue
+                v = p.value
+                if bc is None and dc is None:
+                    ctx.oblige(f"C03/AbstractTransformed.cond_shape[{tag}]/post/unconditional#{i}", v is None, [], props, kind="struct", fn=q + ".cond_shape", replay=rp)
+                elif v is None:
+                    ctx.oblige(f"C03/AbstractTransformed.cond_shape[{tag}]/post/conditional_for_every_rank#{i}", z3.BoolVal(False), H, props, fn=q + ".cond_shape", replay=rp,
+                               note="a conditional child makes the distribution conditional also when its condition is a scalar (cond_shape == ()): this path returns None")
+                else:
+                    want = sb if bc is not None else sd
+                    ctx.oblige(f"C03/AbstractTransformed.cond_shape[{tag}]/post/is_the_childs_cond_shape#{i}", SymTuple.of(v).s == want, H, props, fn=q + ".cond_shape", replay=rp)
+            if ok and (bc is not None or dc is not None):
+                ctx.cover(f"C03/AbstractTransformed.cond_shape[{tag}]/cover/scalar_condition", [accepted] + ok[0].cond + [z3.Length(sb if bc is not None else sd) == 0], props, fn=q + ".cond_shape")
+            ps = it.explore(lambda self=self: self.shape)
+            p = single(ps, ctx, f"C03/AbstractTransformed.shape[{tag}]/struct/straight_line", props, q + ".shape")
+            if p is not None:
+                ctx.oblige(f"C03/AbstractTransformed.shape[{tag}]/post/is_base_shape", SymTuple.of(p.value).s == sh, p.cond, props, fn=q + ".shape", replay=rp)
+
+
 @family("distributions/merge_transforms", ["C03", "C08"])
 def merge_transforms(ctx):
     """merge_transforms never changes the function.  BOUNDED in the nesting depth (1..4 nested Transformed, loop unrolled by the
